@@ -493,6 +493,9 @@ def from_py_safe(x: Any):
 _CURRENT_CT: List[Optional[ClassTable]] = [None]
 
 
+SHARE = [False]   # when set, structurally equal validator sub-terms are built as one shared instance
+
+
 class Ctx:
     """Build context for one case: class table, lazy table, object->term map."""
 
@@ -510,6 +513,7 @@ class Ctx:
         self.rng = rng or random.Random(0)
         self._nocoerce: Dict[Any, Any] = {}
         self._thunks: Dict[int, Any] = {}
+        self._shared: Dict[Any, Any] = {}
         for i, t in enumerate(lazy):
             self.lazy_objs[i] = self.validator(t)
 
@@ -612,6 +616,15 @@ class Ctx:
 
     # -- validators
     def validator(self, t) -> Any:
+        if SHARE[0]:
+            # one object per distinct configuration: equal sub-terms become the *same* instance
+            from .lang import freeze
+            key = freeze(t)
+            if key in self._shared:
+                return self._shared[key]
+            obj = self.reg(self._validator(t), t)
+            self._shared[key] = obj
+            return obj
         return self.reg(self._validator(t), t)
 
     def _validator(self, t) -> Any:
